@@ -10,3 +10,17 @@ package accumulation
 //@ focus out-of-scope (not (callres "IsPkgInScope"))
 //@ ensures silent-when-out-of-scope (= (calls "effect:") 0)
 //@ ensures empty-result-when-out-of-scope (and (is result0 []analysis.Diagnostic) (= (len (as result0 []analysis.Diagnostic)) 0) (isnil result1))
+
+//@ -- C10/C03/C05: order of the accumulation steps. Dependency facts are replayed first, then the package's explicit
+//@ -- annotations, then the package's own constraints; diagnostics are produced and the increment exported afterwards.
+//@ func run
+//@ variant in-scope
+//@ prop C10 C03
+//@ modifies *
+//@ assume driver-passes-nonnil-config (not (= (local conf) nil))
+//@ focus in-scope (callres "IsPkgInScope")
+//@ ensures annotations-before-any-constraint (=> (> (calls "ObservePackage") 0)
+//@    (and (before "ObserveUpstream" "ObserveAnnotations") (before "ObserveAnnotations" "ObservePackage")
+//@         (before "ObservePackage" "Diagnostics") (before "ObservePackage" "Export")
+//@         (= (calls ").ObserveUpstream") 1) (= (calls ").ObserveAnnotations") 1) (= (calls ").ObservePackage") 1) (= (calls ").Export") 1)))
+//@ ensures constraints-are-observed-unless-a-sub-analyzer-failed (=> (= (calls "ObservePackage") 0) (not (= (len (as result0 []analysis.Diagnostic)) 0)))
